@@ -84,6 +84,16 @@ fn parse_string_literal(pair: pest::iterators::Pair<'_, gsd_parser::Rule>) -> Pa
     Ok(s.replace("\\\r\n", "").replace("\\\n", ""))
 }
 
+/// The value of a `Key(index) = value` setting, after key and index have been taken.
+fn indexed_value<'a>(
+    pairs: &mut pest::iterators::Pairs<'a, gsd_parser::Rule>,
+    span: pest::Span<'_>,
+) -> ParseResult<pest::iterators::Pair<'a, gsd_parser::Rule>> {
+    pairs
+        .next()
+        .ok_or_else(|| parse_error("expected an index: `Key(index) = value`", span))
+}
+
 pub fn parse(
     file: &std::path::Path,
     source: &str,
@@ -289,7 +299,7 @@ fn parse_inner(
                                 }
                                 "ext_user_prm_data_ref" => {
                                     let offset = parse_number(value_pair)?;
-                                    let data_id = parse_number(pairs.next().unwrap())?;
+                                    let data_id = parse_number(indexed_value(&mut pairs, statement_span)?)?;
                                     let data_ref = user_prm_data_definitions
                                         .get(&data_id)
                                         .ok_or_else(|| {
@@ -303,7 +313,7 @@ fn parse_inner(
                                 }
                                 "ext_user_prm_data_const" => {
                                     let offset = parse_number(value_pair)?;
-                                    let values: Vec<u8> = parse_number_list(pairs.next().unwrap())?;
+                                    let values: Vec<u8> = parse_number_list(indexed_value(&mut pairs, statement_span)?)?;
                                     module_prm_data.data_const.push((offset, values));
                                 }
                                 "info_text" => {
@@ -518,7 +528,7 @@ fn parse_inner(
                     "set_slave_add_supp" => gsd.set_slave_addr_supported = parse_bool(value_pair)?,
                     "ext_user_prm_data_ref" => {
                         let offset = parse_number(value_pair)?;
-                        let data_id = parse_number(pairs.next().unwrap())?;
+                        let data_id = parse_number(indexed_value(&mut pairs, statement_span)?)?;
                         let data_ref = user_prm_data_definitions
                             .get(&data_id)
                             .ok_or_else(|| {
@@ -535,7 +545,7 @@ fn parse_inner(
                     }
                     "ext_user_prm_data_const" => {
                         let offset = parse_number(value_pair)?;
-                        let values: Vec<u8> = parse_number_list(pairs.next().unwrap())?;
+                        let values: Vec<u8> = parse_number_list(indexed_value(&mut pairs, statement_span)?)?;
                         gsd.user_prm_data.data_const.push((offset, values));
                         // The presence of this keywords means `User_Prm_Data` and
                         // `User_Prm_Data_Len` should be ignored.
@@ -597,22 +607,22 @@ fn parse_inner(
                     }
                     "unit_diag_bit" => {
                         let bit = parse_number(value_pair)?;
-                        let text = parse_string_literal(pairs.next().unwrap())?;
+                        let text = parse_string_literal(indexed_value(&mut pairs, statement_span)?)?;
                         gsd.unit_diag.bits.entry(bit).or_default().text = text;
                     }
                     "unit_diag_bit_help" => {
                         let bit = parse_number(value_pair)?;
-                        let text = parse_string_literal(pairs.next().unwrap())?;
+                        let text = parse_string_literal(indexed_value(&mut pairs, statement_span)?)?;
                         gsd.unit_diag.bits.entry(bit).or_default().help = Some(text);
                     }
                     "unit_diag_not_bit" => {
                         let bit = parse_number(value_pair)?;
-                        let text = parse_string_literal(pairs.next().unwrap())?;
+                        let text = parse_string_literal(indexed_value(&mut pairs, statement_span)?)?;
                         gsd.unit_diag.not_bits.entry(bit).or_default().text = text;
                     }
                     "unit_diag_not_bit_help" => {
                         let bit = parse_number(value_pair)?;
-                        let text = parse_string_literal(pairs.next().unwrap())?;
+                        let text = parse_string_literal(indexed_value(&mut pairs, statement_span)?)?;
                         gsd.unit_diag.not_bits.entry(bit).or_default().help = Some(text);
                     }
                     _ => (),
